@@ -163,6 +163,26 @@ func (m *c19Machine) Enabled() []pt.Action {
 			as = append(as, pt.Action{Op: "patch", R: 0, V: d})
 		}
 	}
+	// a nested object patched through its own handle: the handle reads the target, the root reads as before with that member replaced
+	if curv, ok := m.w.reps[0].doc.GetValue().(map[string]interface{}); ok {
+		keys := make([]string, 0, len(curv))
+		for k := range curv {
+			keys = append(keys, k)
+		}
+		sort.Strings(keys)
+		for _, k := range keys {
+			if mv, isObj := curv[k].(map[string]interface{}); isObj && !strings.ContainsAny(k, "/~") {
+				t := map[string]interface{}{"zz": "t", "yy": []interface{}{"u"}}
+				for mk, v := range mv {
+					if mk != "x" { // (one member of the old value goes)
+						t[mk] = v
+					}
+				}
+				as = append(as, pt.Action{Op: "subpatch", R: 0, K: k, V: canonJSON(jsonStr(t))})
+				break
+			}
+		}
+	}
 	for _, bad := range []string{`[1]`, `1`, `"s"`, `null`, `{"a":`} { // not a JSON object: must be refused, inert
 		as = append(as, pt.Action{Op: "patch", R: 0, V: bad, K: "invalid"})
 	}
@@ -201,6 +221,40 @@ func (m *c19Machine) Apply(a pt.Action) *pt.Violation {
 	r := m.w.reps[a.R]
 	src := canonJSON(jsonStr(r.doc.GetValue()))
 	npend := len(m.w.Pending(a.R))
+	if a.Op == "subpatch" {
+		m.depth++
+		want, _ := r.doc.GetValue().(map[string]interface{})
+		var tv interface{}
+		json.Unmarshal([]byte(a.V), &tv)
+		wantRoot := map[string]interface{}{}
+		for k, v := range want {
+			wantRoot[k] = v
+		}
+		wantRoot[a.K] = tv
+		h, err := r.doc.GetFromObject(a.K)
+		if err != nil || h == nil {
+			return viol("C19:harness:no-handle", "no handle for member %q", a.K)
+		}
+		var perr interface{}
+		var perrE error
+		func() {
+			defer func() { perr = recover() }()
+			if _, e := h.PatchByJSON(a.V); e != nil {
+				perrE = e
+			}
+		}()
+		m.last = fmt.Sprintf("subpatch err=%v panic=%v", perrE != nil, perr != nil)
+		if perr != nil {
+			return viol("C19:patch-panics:nested-handle", "PatchByJSON(%s) on the handle of member %q of %s panicked: %v", a.V, a.K, src, perr)
+		}
+		if perrE != nil {
+			return viol("C19:patch-refused:nested-handle", "PatchByJSON(%s) on the handle of member %q of %s returned %v", a.V, a.K, src, perrE)
+		}
+		if got := canonJSON(jsonStr(r.doc.GetValue())); got != canonJSON(jsonStr(wantRoot)) {
+			return viol("C19:patched-value-differs:nested-handle", "member %q of %s patched through its handle to %s: the document reads %s, expected %s", a.K, src, a.V, got, canonJSON(jsonStr(wantRoot)))
+		}
+		return nil
+	}
 	out := m.w.Step(a)
 	m.depth++
 	if a.Op == "sync" {
